@@ -3,8 +3,9 @@
 Theorems: coq/theorems/C19.v (model coq/model/CodecM.v, proofs coq/proofs/CodecP.v, format
 constants coq/gen/ParamsC19.v regenerated from /repo's ASTs by py/params_c19.py).
 Tie: functional lock-step of the extracted model against the REAL readers / writers / editors
-of infretis.classes.engines (gromacs, cp2k, lammps, engineparts, enginebase) on generated
-files, and the property's own statement evaluated on the implementation (the oracle).
+of infretis.classes.engines (gromacs, cp2k, lammps, turtlemdengine, ase_engine, engineparts,
+enginebase) on generated files and on generated HISTORIES of frame extractions into one worker
+directory, and the property's own statement evaluated on the implementation (the oracle).
 Every case is a JSON "spec" (floats as hex) so that a replay re-runs exactly that case.
 """
 import importlib.util  # noqa: F401
@@ -25,9 +26,9 @@ import common
 META = {
     "id": "C19",
     "level": "proof",
-    "technique": "Coq theorems (unbounded, closed) about an executable model of the fixed-point field codec, the g96 / extended-xyz / lammpstrj line formats, velocity reversal, frame extraction, swap_integer, the TRR header/data decoder, and the mdp / CP2K / LAMMPS template editors + lock-step of the extracted model against the real functions on generated files + the property's statement evaluated on the implementation",
-    "text": "Unbounded theorems: float('{:w.df}'.format(x)) is x rounded half-even to d decimals (error <= half a unit of the last decimal) for every width; the field has the format width iff width_guard, which is a bound on the magnitude (g96: -1e4 < x < 1e5); g96 atom lines (24-character label + 3 fields, read by slicing) and box lines, xyz atom lines and Box: headers round-trip; the guard is necessary for g96 (witness) and unnecessary for xyz; the lammpstrj reader returns the rows of frame k sorted by id whatever order they were written in; reversing velocities changes the velocity signs only and printing -x parses to -round(x); frame k of a multi-frame xyz / lammpstrj / TRR file is frame k; swap_integer is byte reversal of the low 32 bits and an involution on them; TRR header and frame decode(encode) = id for both byte orders and both precisions, precision detection; mdp editing replaces exactly the requested keys, appends the missing ones once, keeps every other line byte-identical, reads back the requested values and is idempotent on the whole text - for every requested value, the ones that are falsy in Python included (the model is over strings: the requested text is str(value), so 0, 0.0, '', None, False and the strings '0', '0.0', ' ' are values like any other; generated for keys present in and absent from the template, alone and mixed with non-zero values, and as the engine's own requests nstvout = 0, nstfout = 0, nsteps = 0, define = ''); CP2K data-line update exact + idempotent, a section created from a dict is a fixed point, tree update touches only the target node (same-named siblings untouched, path dictionary unchanged) and is idempotent, and the printed text reads back as the same forest (so comparing trees is comparing files); LAMMPS variable substitution exact, output free of requested variables, second application unchanged with all variables reported missing. Format constants (widths, precisions, slice positions, TRR magic/version/header layout, swap masks) are regenerated from /repo's source on every run and pinned by C19_format_contract.",
-    "note": "Trusted: Coq kernel (all theorems closed under the global context); extraction (ExtrOcamlBasic) + ocaml/c19_driver.ml; this harness (generators, file skeletons, hex encoding, struct packing of TRR test files, IEEE decoding of the model's byte groups, an independent CP2K tree parser used to compare outputs modulo sibling order). Not proved but checked on every generated value: Python's format()/float() correct rounding (model works on the exact rational of the float; float(s) must equal the double nearest to the model's decimal). numpy astype(str)/genfromtxt tokens are opaque shortest round-trip decimals (lammpstrj theorem is therefore `_partial`: row selection + canonical id sort only). LAMMPS str.replace is modelled on tokens (generated variables are never substrings of other tokens or values). LAMMPS reader needs >= 2 atoms (genfromtxt returns a 1-D array for one row): outside the claim, as in DESIGN. Requested values of the template editors are passed to the model as str(value) (what the editors write); for CP2K only None means 'keyword alone', 0 / 0.0 / '' / False are values, and CP2K data lines are compared stripped in the tree comparison ('KEY ' is what an empty value prints). CP2K: at most two sections may share a title path (Python's set order decides which of three keeps the plain key); targets are upper case. The model is that of the code repaired by proposed_fixes/C19_modify_input_newline.diff, C19_cp2k_dict_data.diff and C19_lammps_repeated_variable.diff; on a tree without these repairs the oracle reports the concrete failing inputs.",
+    "technique": "Coq theorems (unbounded, closed) about an executable model of the fixed-point field codec, the g96 / extended-xyz / lammpstrj line formats, velocity reversal, frame extraction (single files and histories of extractions into one directory: overwrite semantics), swap_integer, the TRR header/data decoder, and the mdp / CP2K / LAMMPS template editors + lock-step of the extracted model against the real functions on generated files + the property's statement evaluated on the implementation",
+    "text": "Unbounded theorems: float('{:w.df}'.format(x)) is x rounded half-even to d decimals (error <= half a unit of the last decimal) for every width; the field has the format width iff width_guard, which is a bound on the magnitude (g96: -1e4 < x < 1e5); g96 atom lines (24-character label + 3 fields, read by slicing) and box lines, xyz atom lines and Box: headers round-trip; the guard is necessary for g96 (witness) and unnecessary for xyz; the lammpstrj reader returns the rows of frame k sorted by id whatever order they were written in; reversing velocities changes the velocity signs only and printing -x parses to -round(x); frame k of a multi-frame xyz / lammpstrj / TRR file is frame k; frame extraction is history-independent: dump_config / _extract_frame is the directory operation files[out := [frame k of src]] (the output is opened for writing), so after ANY sequence of extractions - any sources (earlier outputs included, src = out included), any output names, any initial directory: output absent, holding a stale frame, a whole stale trajectory, an unrelated system, junk or nothing - the output of an extraction that no later one overwrote holds exactly one snapshot, the frame that extraction took from its source as it was then, the reader (first snapshot) returns it, the old content of the output has no influence on any file, files nobody writes to are unchanged; opening the output for appending is refuted (two extractions into one name: the reader returns the first), also on the extended-xyz text (stale block in front => the stale snapshot is read). Checked on the implementation for EVERY engine with an _extract_frame that can run here (CP2KEngine, TurtleMDEngine, LAMMPSEngine, GromacsEngine .trr -> .g96 and .g96 -> .g96, ASEEngine): generated histories through the real dump_config, after every operation the output is read back with the engine's own _read_configuration and _reverse_velocities + _read_configuration and must be frame k of the source as read before the operation (resp. (x, -v) of it), the file must hold exactly one snapshot, and every file of the directory, identified frame by frame with the package's readers, must be what the model's fx_run / fx_trace says; swap_integer is byte reversal of the low 32 bits and an involution on them; TRR header and frame decode(encode) = id for both byte orders and both precisions, precision detection; mdp editing replaces exactly the requested keys, appends the missing ones once, keeps every other line byte-identical, reads back the requested values and is idempotent on the whole text - for every requested value, the ones that are falsy in Python included (the model is over strings: the requested text is str(value), so 0, 0.0, '', None, False and the strings '0', '0.0', ' ' are values like any other; generated for keys present in and absent from the template, alone and mixed with non-zero values, and as the engine's own requests nstvout = 0, nstfout = 0, nsteps = 0, define = ''); CP2K data-line update exact + idempotent, a section created from a dict is a fixed point, tree update touches only the target node (same-named siblings untouched, path dictionary unchanged) and is idempotent, and the printed text reads back as the same forest (so comparing trees is comparing files); LAMMPS variable substitution exact, output free of requested variables, second application unchanged with all variables reported missing. Format constants (widths, precisions, slice positions, TRR magic/version/header layout, swap masks) are regenerated from /repo's source on every run and pinned by C19_format_contract.",
+    "note": "Trusted: Coq kernel (all theorems closed under the global context); extraction (ExtrOcamlBasic) + ocaml/c19_driver.ml; this harness (generators, file skeletons, hex encoding, struct packing of TRR test files, IEEE decoding of the model's byte groups, an independent CP2K tree parser used to compare outputs modulo sibling order). Not proved but checked on every generated value: Python's format()/float() correct rounding (model works on the exact rational of the float; float(s) must equal the double nearest to the model's decimal). numpy astype(str)/genfromtxt tokens are opaque shortest round-trip decimals (lammpstrj theorem is therefore `_partial`: row selection + canonical id sort only). LAMMPS str.replace is modelled on tokens (generated variables are never substrings of other tokens or values). LAMMPS reader needs >= 2 atoms (genfromtxt returns a 1-D array for one row): outside the claim, as in DESIGN. Requested values of the template editors are passed to the model as str(value) (what the editors write); for CP2K only None means 'keyword alone', 0 / 0.0 / '' / False are values, and CP2K data lines are compared stripped in the tree comparison ('KEY ' is what an empty value prints). CP2K: at most two sections may share a title path (Python's set order decides which of three keeps the plain key); targets are upper case. Extraction histories: engine objects are created with object.__new__ (no __init__: no input files / executables) and given exe_dir, ext and what the methods use (LAMMPS n_atoms, GROMACS top); frames are told apart by value (every generated frame carries its number in its first coordinate; extended xyz / lammpstrj exact, g96 to 9 decimals, ASE to 1e-12 since velocities are stored as momenta); a file without a complete frame (junk, empty) is modelled as holding no frame; GROMACS .g96 -> .g96 onto itself is shutil.copyfile and raises SameFileError (file untouched): src = out is not generated for GROMACS; extraction of a frame that does not exist (the engines log or raise) is outside the claim; AMSEngine._extract_frame works on in-memory states of an AMS worker (scm.plams, not installed): not exercised. The model is that of the code repaired by proposed_fixes/C19_modify_input_newline.diff, C19_cp2k_dict_data.diff and C19_lammps_repeated_variable.diff; on a tree without these repairs the oracle reports the concrete failing inputs.",
     "design_ref": "4/C19",
 }
 LEVEL = "proof"
@@ -1310,12 +1311,558 @@ def gen_lammps_in(rng, small=None):
     return {"text": text, "settings": [[k, rng.choice(["0.5", 100, "run_7", "300.0", "conf.lammpstrj", 0, "0", 0.0, ""])] for k in ks]}
 
 
+# --------------------------------------------------------------------------- K. extraction histories
+#
+# dump_config((file, k), deffnm=name) -> <Engine>._extract_frame for every engine that has one, as a
+# sequence of operations on ONE worker directory: the output name is re-used move after move, may be left
+# over by an earlier (crashed) move, may be an earlier output, the source may be an earlier output.  After
+# every operation the output is read back with the engine's own readers and must be exactly frame k of the
+# source as it was before the operation, and hold exactly one snapshot; the whole directory is compared
+# with the model's (fx_run / fx_trace: files[out := [frame k of src]]).
+
+FX_ENGINES = ("cp2k", "turtlemd", "lammps", "gromacs", "ase")
+FX_SYMBOLS = ["H", "O", "Ar", "C", "He", "Na"]
+
+
+def engine_shell(cls, **attrs):
+    """a real engine object without running __init__ (which needs input files / executables)"""
+    obj = object.__new__(cls)
+    obj.description = "c19"
+    for k, v in attrs.items():
+        setattr(obj, k, v)
+    return obj
+
+
+def arr(rows):
+    return np.array([[hf(v) for v in r] for r in rows], dtype=float).reshape(-1, 3)
+
+
+class FxXyz:
+    """CP2K and TurtleMD: extended xyz, source and output format are the same"""
+    ext = src_ext = "xyz"
+    mode = "exact"
+
+    def __init__(self, spec):
+        self.n = spec["n"]
+        if spec["engine"] == "cp2k":
+            from infretis.classes.engines.cp2k import CP2KEngine as cls
+        else:
+            from infretis.classes.engines.turtlemdengine import TurtleMDEngine as cls
+        self.cls = cls
+
+    def engine(self, d):
+        return engine_shell(self.cls, exe_dir=d, ext="xyz")
+
+    def write(self, path, frames, src=True):
+        from infretis.classes.engines.engineparts import write_xyz_trajectory
+        if os.path.exists(path):
+            os.remove(path)
+        for fr in frames:
+            box = None if fr["box"] is None else np.array([hf(v) for v in fr["box"]])
+            write_xyz_trajectory(path, arr(fr["pos"]), arr(fr["vel"]), fr["names"], box, step=fr.get("step"), append=True)
+
+    def read_all(self, path):
+        from infretis.classes.engines.engineparts import read_xyz_file
+        out = []
+        for s in read_xyz_file(path):
+            names, xyz, vel, box = snap_arrays(s)
+            out.append((tuple(names), xyz, vel, box))
+        return out
+
+    def count(self, path):
+        return len(self.read_all(path))
+
+    def conf(self, eng, path):
+        xyz, vel, box, names = eng._read_configuration(path)
+        return (tuple(names), xyz, vel, box)
+
+    def expected_conf(self, sig):
+        return sig
+
+
+class FxLammps:
+    ext = src_ext = "lammpstrj"
+    mode = "exact"
+
+    def __init__(self, spec):
+        self.n = spec["n"]
+
+    def engine(self, d):
+        from infretis.classes.engines.lammps import LAMMPSEngine
+        return engine_shell(LAMMPSEngine, exe_dir=d, ext="lammpstrj", n_atoms=self.n)
+
+    def write(self, path, frames, src=True):
+        from infretis.classes.engines.lammps import write_lammpstrj
+        for k, fr in enumerate(frames):
+            idt = np.array([[float(i), float(t)] for i, t in zip(fr["ids"], fr["types"])])
+            write_lammpstrj(path, idt, arr(fr["pos"]), arr(fr["vel"]), np.array([[hf(v) for v in r] for r in fr["box"]], dtype=float), append=(k > 0))
+
+    def read_all(self, path):
+        from infretis.classes.engines.lammps import read_lammpstrj
+        lines = rfile(path).split("\n")
+        nfr = sum(1 for ln in lines if ln.startswith("ITEM: TIMESTEP"))
+        if nfr == 0 or len(lines) != nfr * (self.n + 9) + 1:
+            raise ValueError(f"{len(lines) - 1} lines are not {nfr} blocks of {self.n} atoms")
+        out = []
+        for j in range(nfr):
+            idt, pos, vel, box = read_lammpstrj(path, j, self.n)
+            out.append((tuple(map(tuple, idt.tolist())), pos, vel, box))
+        return out
+
+    def count(self, path):
+        return sum(1 for ln in rfile(path).split("\n") if ln.startswith("ITEM: TIMESTEP"))
+
+    def conf(self, eng, path):
+        pos, vel, box, _ = eng._read_configuration(path)
+        return (None, pos, vel, box)
+
+    def expected_conf(self, sig):
+        _, pos, vel, box = sig
+        return (None, pos - box[:, 0], vel, box[:, 1] - box[:, 0])     # shift_boxbounds (dyadic values: exact)
+
+
+class FxGromacs:
+    """sources are .trr files (struct-packed), outputs .g96; an earlier .g96 output as source is copied"""
+    ext, src_ext = "g96", "trr"
+    mode = "g96"
+
+    def __init__(self, spec):
+        self.n = spec["n"]
+        self.endian = spec.get("endian", "<")
+        self.double = bool(spec.get("double", False))
+
+    def top(self, n=None):
+        labels = [g96_label(i) for i in range(self.n if n is None else n)]
+        return {"TITLE": ["extracted"], "POSITION": labels, "VELOCITY": list(labels), "BOX": ["b"]}
+
+    def engine(self, d):
+        from infretis.classes.engines.gromacs import GromacsEngine
+        return engine_shell(GromacsEngine, exe_dir=d, ext="g96", top=self.top())
+
+    @staticmethod
+    def box9(m):
+        m = [float(v) for v in np.asarray(m).flat]
+        return np.array([m[0], m[4], m[8], m[1], m[2], m[3], m[5], m[6], m[7]])
+
+    def write(self, path, frames, src=True):
+        if src:
+            with open(path, "wb") as f:
+                f.write(b"".join(trr_frame_bytes(self.endian, self.double, fr) for fr in frames))
+            return
+        from infretis.classes.engines.gromacs import write_gromos96_file
+        text = ""
+        for fr in frames:        # g96 holds one configuration; several are simply concatenated texts
+            n = fr["natoms"]
+            write_gromos96_file(path, self.top(n), np.array([hf(v) for v in fr["x"]]).reshape(n, 3),
+                                np.array([hf(v) for v in fr["v"]]).reshape(n, 3), self.box9([hf(v) for v in fr["box"]]))
+            text += rfile(path)
+        wfile(path, text)
+
+    def read_all(self, path):
+        from infretis.classes.engines.gromacs import read_gromos96_file, read_trr_frame
+        if path.endswith(".trr"):
+            out = []
+            for j in range(1000):
+                h, dat = read_trr_frame(path, j)
+                if h is None:
+                    break
+                n = h["natoms"]
+                out.append((None, np.asarray(dat["x"], dtype=float).reshape(n, 3), np.asarray(dat["v"], dtype=float).reshape(n, 3), self.box9(dat["box"])))
+            return out
+        if self.count(path) != 1:
+            raise ValueError("not one g96 configuration")
+        _, xyz, vel, box = read_gromos96_file(path)
+        return [(None, xyz, vel, np.asarray(box, dtype=float))]
+
+    def count(self, path):
+        lines = rfile(path).split("\n")
+        return max(lines.count("POSITION"), lines.count("TITLE"), lines.count("VELOCITY"), lines.count("BOX"))
+
+    def conf(self, eng, path):
+        xyz, vel, box, _ = eng._read_configuration(path)
+        return (None, xyz, vel, None if box is None else np.asarray(box, dtype=float))
+
+    def expected_conf(self, sig):
+        return sig
+
+
+class FxAse:
+    ext = src_ext = "traj"
+    mode = "ase"      # velocities are stored as momenta: v*m/m may differ from v in the last bit
+
+    def __init__(self, spec):
+        self.n = spec["n"]
+
+    def engine(self, d):
+        from infretis.classes.engines.ase_engine import ASEEngine
+        return engine_shell(ASEEngine, exe_dir=d, ext="traj")
+
+    def write(self, path, frames, src=True):
+        from ase import Atoms
+        from ase.io import Trajectory
+        with Trajectory(path, "w") as t:
+            for fr in frames:
+                a = Atoms(symbols=fr["names"], positions=arr(fr["pos"]), cell=[hf(v) for v in fr["box"]], pbc=True)
+                a.set_velocities(arr(fr["vel"]))
+                t.write(a)
+
+    def read_all(self, path):
+        from ase.io import Trajectory
+        with Trajectory(path) as t:
+            return [(tuple(a.get_chemical_symbols()), a.positions.copy(), a.get_velocities(), a.cell.diagonal().copy()) for a in t]
+
+    def count(self, path):
+        from ase.io import Trajectory
+        with Trajectory(path) as t:
+            return len(t)
+
+    def conf(self, eng, path):
+        pos, vel, box, _ = eng._read_configuration(path)
+        return (None, pos, vel, box)
+
+    def expected_conf(self, sig):
+        return (None,) + tuple(sig[1:])
+
+
+FX = {"cp2k": FxXyz, "turtlemd": FxXyz, "lammps": FxLammps, "gromacs": FxGromacs, "ase": FxAse}
+
+
+def fx_close(a, b, mode):
+    if (a is None) != (b is None):
+        return False
+    if a is None:
+        return True
+    a, b = np.asarray(a, dtype=float), np.asarray(b, dtype=float)
+    if a.shape != b.shape:
+        return False
+    if mode == "exact":
+        return bool(np.array_equal(a, b))
+    if mode == "ase":
+        return bool(np.allclose(a, b, rtol=1e-12, atol=1e-12))
+    # g96: 9 decimals (half a unit of the last one, plus the spacing of doubles)
+    return bool(np.all(np.abs(a - b) <= 0.5e-9 * (1 + 1e-6) + np.abs(b) * 2.0 ** -50))
+
+
+def fx_same(s, t, mode, vel_sign=1.0):
+    """two (labels, pos, vel, box) tuples hold the same configuration (labels compared when both have them)"""
+    if s[0] is not None and t[0] is not None and tuple(s[0]) != tuple(t[0]):
+        return False
+    return fx_close(s[1], t[1], mode) and fx_close(s[2], vel_sign * np.asarray(t[2], dtype=float), mode) and fx_close(s[3], t[3], mode)
+
+
+def case_extract_history(spec, tmp):
+    c = Case("extract_history", spec)
+    fx = FX[spec["engine"]](spec)
+    mode = fx.mode
+    d = os.path.join(tmp, "fxh")
+    common.rmtree(d)
+    os.makedirs(d)
+    eng = fx.engine(d)
+    names = spec["names"]                       # every file name of the history; its index is the model's name
+    sources, pre, ops = spec["sources"], spec.get("pre", {}), spec["ops"]
+    known = {}                                  # frame id -> (labels, pos, vel, box) as the package's reader returns it
+    frozen = {}                                 # path -> (bytes, model content) of files whose content is opaque
+    model0 = {}
+
+    def path_of(name):
+        return os.path.join(d, f"{name}.{fx.src_ext if name in sources else fx.ext}")
+
+    def new_ids(sigs):
+        out = []
+        for s in sigs:
+            known[len(known) + 1] = s
+            out.append(len(known))
+        return out
+
+    def opaque_ids(k):
+        out = []
+        for _ in range(k):
+            known[len(known) + 1] = None
+            out.append(len(known))
+        return out
+
+    for name, frames in sources.items():
+        fx.write(path_of(name), frames, src=True)
+        sigs = fx.read_all(path_of(name))
+        if len(sigs) != len(frames):
+            c.fail(f"source {name}: wrote {len(frames)} frames, read {len(sigs)}")
+            return c
+        model0[name] = new_ids(sigs)
+    for name, p in pre.items():
+        if "junk" in p:
+            with open(path_of(name), "wb") as f:
+                f.write(p["junk"].encode("latin-1"))
+            model0[name] = []
+        else:
+            fx.write(path_of(name), p["frames"], src=False)
+            model0[name] = opaque_ids(len(p["frames"])) if p.get("opaque") else new_ids(fx.read_all(path_of(name)))
+        if "junk" in p or p.get("opaque"):
+            with open(path_of(name), "rb") as f:
+                frozen[path_of(name)] = (f.read(), model0[name])
+
+    parsed = {}                                 # file bytes -> frames (files are re-read only when they changed)
+
+    def read_all(p):
+        with open(p, "rb") as f:
+            key = (p.endswith(".trr"), f.read())
+        if key not in parsed:
+            try:
+                parsed[key] = fx.read_all(p)
+            except Exception as e:  # noqa: BLE001
+                parsed[key] = e
+        if isinstance(parsed[key], Exception):
+            raise parsed[key]
+        return parsed[key]
+
+    def which(sig, conf=False, vel_sign=1.0):
+        return [i for i, s in known.items() if s is not None and fx_same(sig, fx.expected_conf(s) if conf else s, mode, vel_sign)]
+
+    def identify(name):
+        """the content of a file as a list of frame ids ('?' = a snapshot that is no known frame / unreadable)"""
+        p = path_of(name)
+        if p in frozen:
+            with open(p, "rb") as f:
+                if f.read() == frozen[p][0]:
+                    return list(frozen[p][1])
+        try:
+            sigs = read_all(p)
+        except Exception as e:  # noqa: BLE001
+            return [f"?{type(e).__name__}"]
+        out = []
+        for s in sigs:
+            w = which(s)
+            out.append(w[0] if w else "?")
+        return out
+
+    def show(i):
+        pres = {k: ("junk" if "junk" in v else f"{len(v['frames'])} {'unrelated' if v.get('opaque') else 'stale'} frame(s)") for k, v in pre.items()}
+        return f"{spec['engine']} history {ops[:i + 1]} (sources {({k: len(v) for k, v in sources.items()})}, pre-existing {pres})"
+
+    states, reads = [], []
+    for i, (src, k, out) in enumerate(ops):
+        try:
+            before = read_all(path_of(src))
+            want = before[k]
+        except Exception as e:  # noqa: BLE001
+            c.fail(f"{show(i)}: the source {src} has no readable frame {k} before the operation ({type(e).__name__}: {e})")
+            break
+        try:
+            got_path = eng.dump_config((path_of(src), k), deffnm=out)
+        except Exception as e:  # noqa: BLE001
+            c.fail(f"{show(i)}: dump_config raised {type(e).__name__}: {e}")
+            break
+        if os.path.abspath(got_path) != os.path.abspath(path_of(out)) or not os.path.isfile(path_of(out)):
+            c.fail(f"{show(i)}: dump_config returned {got_path!r}, expected {path_of(out)!r}")
+            break
+        # ---- the statement: the output holds exactly one snapshot and the engine's readers return frame k
+        try:
+            nsnap = fx.count(path_of(out))
+        except Exception as e:  # noqa: BLE001
+            nsnap = f"unreadable ({type(e).__name__})"
+        try:
+            conf = fx.conf(eng, path_of(out))
+            conf_err = None
+        except Exception as e:  # noqa: BLE001
+            conf, conf_err = None, f"{type(e).__name__}: {e}"
+        if conf is None:
+            c.fail(f"{show(i)}: _read_configuration of the output raised {conf_err}; the file holds {nsnap} snapshot(s)")
+            rid = "?"
+        else:
+            w = which(conf, conf=True)
+            rid = w[0] if w else "?"
+            same = fx_same(conf, fx.expected_conf(want), mode)
+            if nsnap != 1 or not same:
+                c.fail(f"{show(i)}: asked for frame {k} of {src} (frame id {which(want)}): the output {out}.{fx.ext} holds {nsnap} snapshot(s) (exactly 1 expected) and "
+                       f"_read_configuration returns frame id {w or 'unknown'}"
+                       + ("" if same else f": positions {np.asarray(conf[1]).tolist()} instead of {np.asarray(fx.expected_conf(want)[1]).tolist()}"))
+        rev = os.path.join(d, f"r_{out}.{fx.ext}")
+        try:
+            eng._reverse_velocities(path_of(out), rev)
+            rconf = fx.conf(eng, rev)
+            if not fx_same(rconf, fx.expected_conf(want), mode, vel_sign=-1.0):
+                c.fail(f"{show(i)}: frame {k} of {src} extracted and reversed is not (x, -v) of that frame: _reverse_velocities read frame id {which(rconf, conf=True, vel_sign=-1.0) or 'unknown'}")
+        except Exception as e:  # noqa: BLE001
+            c.fail(f"{show(i)}: _reverse_velocities / re-reading of the output raised {type(e).__name__}: {e}")
+        if os.path.exists(rev):
+            os.remove(rev)
+        reads.append(rid)
+        states.append({nm: identify(nm) for nm in names if os.path.exists(path_of(nm))})
+    # ---- the model on the same history
+    idx = {nm: j for j, nm in enumerate(names)}
+    dir0 = ";".join(f"{idx[nm]}:{','.join(map(str, ids)) or '-'}" for nm, ids in model0.items()) or "-"
+    opsq = ";".join(f"{idx[s]}.{k}.{idx[o]}" for s, k, o in ops) or "-"
+
+    def chk(ans):
+        trace, final = ans[0].split("=")
+        steps = [] if trace == "-" else trace.split("|")
+        if len(steps) != len(ops) or "N" in steps:
+            return f"model: the history fails at operation {len(steps)} ({ans[0][:200]})"
+
+        def parse_dir(s):
+            out = {}
+            for ent in ([] if s == "-" else s.split(";")):
+                nm, ids = ent.split(":")
+                out[names[int(nm)]] = [] if ids == "-" else [int(x) for x in ids.split(",")]
+            return out
+        for i, st in enumerate(steps):
+            if i >= len(states):
+                return f"implementation stopped after {len(states)} of {len(ops)} operations"
+            r, ds = st.split("@")
+            md = parse_dir(ds)
+            if md != states[i]:
+                return f"directory after operation {i} of {ops}: model {md} != implementation {states[i]}"
+            if r != str(reads[i]):
+                return f"frame read from the output after operation {i} of {ops}: model {r} != implementation {reads[i]}"
+        return None if parse_dir(final) == states[-1] else f"final directory: model {final} != implementation {states[-1]}"
+    c.ask([f"fxhist {dir0} {opsq}"], chk)
+    c.tags += [f"fx_{spec['engine']}", f"fx_history_of_{len(ops)}"]
+    for nm, p in pre.items():
+        c.tags.append("fx_output_preexisting_" + ("junk" if "junk" in p else ("unrelated" if p.get("opaque") else "stale") + f"_{len(p['frames'])}"))
+    outs_so_far = set()
+    for s, k, o in ops:
+        if s == o:
+            c.tags.append("fx_source_is_the_output")
+        elif s in outs_so_far:
+            c.tags.append("fx_source_is_an_earlier_output")
+        if o in outs_so_far:
+            c.tags.append("fx_output_extracted_earlier")
+        outs_so_far.add(o)
+    c.sample = {"engine": spec["engine"], "ops": ops, "pre": {k: list(v) for k, v in pre.items()}, "directory_after": states[-1] if states else None}
+    return c
+
+
+def fx_frames(rng, engine, n, count, tag0):
+    """`count` distinct frames of n atoms in the engine's frame spec; the first coordinate carries the frame's number"""
+    out = []
+    for j in range(count):
+        g = tag0 + j
+        if engine in ("cp2k", "turtlemd"):
+            fr = gen_xyz_spec(rng, 1, n, "plain", rng.choice((0, 3, 9)))["frames"][0]
+            fr["names"] = [rng.choice(NAMES) for _ in range(n)]
+            fr["pos"][0][0] = fh(g + 0.5)
+        elif engine == "lammps":
+            fr = gen_lmp_spec(rng, 1, n, "plain", rng.choice((2, 3)), dyadic=True)["frames"][0]
+            fr["pos"][0][0] = fh(g + 0.5)
+        elif engine == "gromacs":
+            fr = gen_trr_frame(rng, n, ("box", "x", "v"), 10 * g)
+            fr["x"][0] = fh(g + 0.5)
+        else:
+            fr = {"names": [rng.choice(FX_SYMBOLS) for _ in range(n)], "pos": [[fh(rng.randrange(-400, 400) / 8) for _ in range(3)] for _ in range(n)],
+                  "vel": [[fh(rng.randrange(-400, 400) / 64) for _ in range(3)] for _ in range(n)], "box": [fh(rng.randrange(8, 200) / 4) for _ in range(3)]}
+            fr["pos"][0][0] = fh(g + 0.5)
+        out.append(fr)
+    return out
+
+
+FX_JUNK = ["not a configuration\n", "3\n# truncated\nH 0.0 0.0", "\x00\x01\x02junk"]
+
+
+def fx_world(rng, engine, n, nA, nB):
+    """sources A, B and the candidates for pre-existing content of the output 'conf'"""
+    w = {"engine": engine, "n": n, "sources": {"trajA": fx_frames(rng, engine, n, nA, 1), "trajB": fx_frames(rng, engine, n, nB, 11)}}
+    if engine == "gromacs":
+        w["endian"], w["double"] = rng.choice("<>"), rng.random() < 0.5
+    st = fx_frames(rng, engine, n, 3, 21)
+    un = fx_frames(rng, engine, n + 1, 2, 31)
+    w["pres"] = [None, {"frames": st[:1]}, {"frames": un[:1], "opaque": True}, {"junk": rng.choice(FX_JUNK)}, {"junk": ""},
+                 ({"frames": st[1:3], "opaque": True} if engine == "gromacs" else {"frames": st[1:3]})]
+    return w
+
+
+def fx_spec(w, pre, ops):
+    sp = {k: w[k] for k in ("engine", "n", "sources", "endian", "double") if k in w}
+    sp["names"] = ["trajA", "trajB", "conf", "genesis"]
+    sp["pre"] = {} if pre is None else {"conf": pre}
+    sp["ops"] = [list(o) for o in ops]
+    return sp
+
+
+def fx_choices(w, content, outs=("conf", "genesis")):
+    """every valid next operation given the number of (readable) frames per file"""
+    res = []
+    for src, cnt in content.items():
+        for k in range(cnt):
+            for out in outs:
+                if src == out and w["engine"] == "gromacs":
+                    continue        # g96 -> g96 is shutil.copyfile: raises SameFileError on itself (outside the claim)
+                res.append((src, k, out))
+    return res
+
+
+def fx_content0(w, pre):
+    content = {nm: len(fr) for nm, fr in w["sources"].items()}
+    if pre is not None and "frames" in pre and not pre.get("opaque"):
+        content["conf"] = len(pre["frames"])
+    return content
+
+
+def fx_histories(w, pre, length):
+    """all histories of exactly `length` valid operations"""
+    def rec(content, k):
+        if k == 0:
+            yield []
+            return
+        for op in fx_choices(w, content):
+            nxt = dict(content)
+            nxt[op[2]] = 1
+            for rest in rec(nxt, k - 1):
+                yield [op] + rest
+    return rec(fx_content0(w, pre), length)
+
+
+def fx_random_history(rng, w, pre, length):
+    content, ops = fx_content0(w, pre), []
+    for _ in range(length):
+        ch = fx_choices(w, content)
+        into_conf = [o for o in ch if o[2] == "conf"]
+        op = rng.choice(into_conf if (into_conf and rng.random() < 0.5) else ch)
+        ops.append(op)
+        content[op[2]] = 1
+    return ops
+
+
+def gen_extract_histories(rng, tier):
+    q = tier == "quick"
+    cases = []
+    for engine in FX_ENGINES:
+        nmin = 2 if engine == "lammps" else 1
+        w = fx_world(rng, engine, nmin + 1, 3, 2)
+        for pre in w["pres"]:
+            for ops in fx_histories(w, pre, 1):
+                cases.append(("extract_history", fx_spec(w, pre, ops)))
+            two = list(fx_histories(w, pre, 2))
+            # quick: every pair whose second operation writes where the first one wrote or where the old content is,
+            # a seeded sample of the others; thorough: all pairs
+            if q:
+                keep = [h for h in two if h[1][2] == "conf" and (h[0][2] == "conf" or pre is not None)]
+                rest = [h for h in two if h not in keep]
+                cap = FX_QUICK_PAIRS[engine]
+                if len(keep) > cap:
+                    keep = rng.sample(keep, cap)
+                two = keep + rng.sample(rest, min(len(rest), 12))
+            two.sort(key=lambda h: h[0][:2] == h[1][:2])     # the same frame twice is the least telling history: last
+            for ops in two:
+                cases.append(("extract_history", fx_spec(w, pre, ops)))
+        for _ in range(FX_QUICK_RANDOM[engine] if q else 400):
+            n = rng.randrange(nmin, 6)
+            w2 = fx_world(rng, engine, n, rng.randrange(1, 5), rng.randrange(1, 4))
+            pre = rng.choice(w2["pres"])
+            cases.append(("extract_history", fx_spec(w2, pre, fx_random_history(rng, w2, pre, rng.randrange(3, 8)))))
+    return cases
+
+
+# quick tier: pairs kept per pre-existing state of the output (the extended-xyz engines keep all of them) and
+# number of random longer histories; the thorough tier runs every pair and 400 random histories per engine
+FX_QUICK_PAIRS = {"cp2k": 400, "turtlemd": 400, "lammps": 40, "gromacs": 80, "ase": 40}
+FX_QUICK_RANDOM = {"cp2k": 40, "turtlemd": 40, "lammps": 12, "gromacs": 20, "ase": 12}
+
+
 # --------------------------------------------------------------------------- driver
 
 CASE_FUNCS = {
     "fixed": case_fixed, "g96": case_g96, "xyz": case_xyz, "lammpstrj": case_lammpstrj, "swap": case_swap,
     "trr_decode": case_trr_decode, "trr_file": case_trr_file, "mdp": case_mdp, "cp2k_data": case_cp2k_data,
-    "cp2k_tree": case_cp2k_tree, "lammps_in": case_lammps_in,
+    "cp2k_tree": case_cp2k_tree, "lammps_in": case_lammps_in, "extract_history": case_extract_history,
 }
 
 
@@ -1466,6 +2013,8 @@ def generate(rng, tier):
                             cases.append(("lammps_in", {"text": "".join(t), "settings": [[kk, v] for kk in ks]}))
     for _ in range(300 if q else 8000):
         cases.append(("lammps_in", gen_lammps_in(rng)))
+    # K. extraction histories in one worker directory, every engine with an _extract_frame
+    cases += gen_extract_histories(rng, tier)
     return cases
 
 
@@ -1544,18 +2093,25 @@ def run(ctx):
                        "position for swap_integer, every truncation point of a TRR frame in the four (byte order x precision) variants, every mdp template of <= 2 lines over an 8-line alphabet "
                        "(with and without final newline) x every subset of 3 keys, the same templates (<= 1 line quick, <= 2 lines thorough) x every non-empty subset x every falsy value "
                        "(0, 0.0, '', None, False) and zero-like string ('0', '0.0', ' '), 2-line templates with a falsy value mixed with a non-zero one, the engine's own zero requests on a grompp-like template, every CP2K section of <= 2-3 lines over a 6-line alphabet x dicts over 3 keys (incl. None values, all key orders), "
-                       "every LAMMPS template of <= 2 lines over 5 lines x variable subsets; seeded random beyond (values up to 1e15, random mdp/CP2K/LAMMPS grammars).")
+                       "every LAMMPS template of <= 2 lines over 5 lines x variable subsets; extraction histories for each of the five engines (CP2K, TurtleMD, LAMMPS, GROMACS, ASE) in one directory with "
+                       "sources trajA (3 frames) and trajB (2 frames), outputs conf / genesis, the output conf initially absent / one stale frame / one frame of an unrelated system / junk / empty / a stale 2-frame trajectory: "
+                       "every single extraction, every pair of extractions (sources: both trajectories and every earlier output incl. the output itself, every frame index, both outputs; quick tier: all pairs ending in the "
+                       "pre-existing or just-written output for the extended-xyz engines, a seeded sample of them for the others and of the remaining pairs; thorough: all pairs), and random histories of 3-7 operations "
+                       "with 1-5 atoms, 1-4 / 1-3 source frames; seeded random beyond (values up to 1e15, random mdp/CP2K/LAMMPS grammars).")
     ctx.cov["correspondence"] = {"cases": len(results), "model_requests": nreq, "disagreeing_cases": ncorr, "oracle_failures": sum(rep_o.values()), "oracle_failures_by_kind": rep_o}
     ctx.cov["trusted_base"] += ["extraction: ExtrOcamlBasic only; ocaml/util.ml + ocaml/c19_driver.ml",
                                 "py/checks/c19.py: generators, file skeletons (section keywords of .g96, count/header lines of .xyz), struct-packed TRR files, IEEE decoding of the model's byte groups, "
-                                "independent CP2K tree parser + canonical sibling order, tokenisation of LAMMPS lines into white-space / token pieces",
+                                "independent CP2K tree parser + canonical sibling order, tokenisation of LAMMPS lines into white-space / token pieces, engine objects made with object.__new__ for the extraction histories, "
+                                "identification of the frames held by a file by value with the package's own multi-frame readers (ASE: ase.io.Trajectory)",
                                 "py/params_c19.py (format constants from /repo's ASTs, fail closed)",
                                 "Python format()/float(), numpy astype(str)/genfromtxt, struct (checked per value against the model's exact rationals, not proved)"]
     ctx.assumptions += ["ASCII text; no '\\r'; plain decimal literals (no exponent/inf/nan in fixed-width fields)",
                         "g96 label prefix is exactly 24 characters (format contract)", "lammpstrj: >= 2 atoms, box present, ids distinct",
                         "CP2K: at most two sections share a title path and then differ in their settings; targets upper case and not extending a settings-qualified key; replace=True with list data",
                         "LAMMPS: no requested variable is a substring of another token or of a value; no value is itself a requested variable",
-                        "TRR: natoms >= 0 and sizes below 2^31; reals are compared as bit patterns"]
+                        "TRR: natoms >= 0 and sizes below 2^31; reals are compared as bit patterns",
+                        "extraction histories: every operation names an existing source and a frame it holds; GROMACS: the source of an extraction is never its own output (.g96 -> .g96 is a copy); "
+                        "AMS engine not exercised (needs an AMS worker)"]
 
 
 def replay(doc):
